@@ -376,6 +376,12 @@ def gen_round5(rng, tier, n):
             cases.append({'kind': 'seq', 'steps': [_ff(ty, x), _ff('float', x), dict(half, other=fl), _ff(ty, x)]})
             cases.append({'kind': 'seq', 'steps': [_ff('float', x), _ff(ty, x), _ff('float', x),
                                                    {'kind': 'cmp', 'op': 'eq', 't': str(F(x)), 'other': fl, 'swap': False}]})
+        # the same through the operator wrappers: ==-equal operands of different type in consecutive operations
+        ex = str(F(x))
+        if abs(x) < 1e30:
+            cases.append({'kind': 'seq', 'steps': [dict(half, other={'ty': 'frac', 'v': ex}), dict(half, other=fl),
+                                                   dict(half, other={'ty': 'time', 'v': ex}), dict(half, other=fl, swap=True),
+                                                   {'kind': 'bin', 'op': 'mul', 't': '3', 'other': {'ty': 'frac', 'v': ex}, 'swap': True}]})
         # the mode must stay part of what is remembered: None / 0 / tolerance on the same float, back and forth
         steps = [_ff('float', x, 0), _ff('float', x), _ff('float', x, 0), _ff('time', x, 0), _ff('float', x)]
         if abs(x) < 1e6:
@@ -392,8 +398,10 @@ def gen_round5(rng, tier, n):
             elif r < 0.8:
                 steps.append(_ff(rng.choice(views(x)), x, rng.choice([None, None, 0])))
             else:
+                other = rng.choice([{'ty': 'float', 'v': float(x).hex()}, {'ty': 'float', 'v': float(x).hex()},
+                                    {'ty': 'frac', 'v': str(F(x))}, {'ty': 'time', 'v': str(F(x))}])
                 steps.append({'kind': 'bin', 'op': rng.choice(['add', 'sub', 'mul']), 't': str(rnd_frac(rng)),
-                              'other': {'ty': 'float', 'v': float(x).hex()}, 'swap': rng.random() < 0.5})
+                              'other': other, 'swap': rng.random() < 0.5 and other['ty'] != 'time'})
         cases.append({'kind': 'seq', 'steps': steps})
     # (b) powers through the operand dispatch (class of seed C14-8: the reflected power with a base that is not an
     #     integer): every operand type as exponent of a time value and as base under an integer-valued time exponent
